@@ -138,10 +138,13 @@ def apply_tiff_predictor(
         raise PDFValueError(error_msg)
     bpp = colors * (bitspercomponent // 8)
     nbytes = columns * bpp
+    if not isinstance(nbytes, int) or nbytes <= 0:
+        raise PDFValueError(f"Unsupported predictor geometry: {colors} x {columns}")
     buf: List[int] = []
     for scanline_i in range(0, len(data), nbytes):
         raw: List[int] = []
-        for i in range(nbytes):
+        # the last row may be incomplete in truncated data
+        for i in range(min(nbytes, len(data) - scanline_i)):
             new_value = data[scanline_i + i]
             if i >= bpp:
                 new_value += raw[i - bpp]
